@@ -3,8 +3,12 @@
 //   <= 3 registered clients, 2 keys ("a", "b"), every client registered under {a}, {b} or {a,b}.
 //   The SHAPE (which client waits on which keys) is concrete and enumerated in straight-line code
 //   inside each harness (a symbolic shape ran CBMC out of memory: 69 M clauses for 2 clients);
-//   connection ids (pairwise distinct, full-width u64), deadlines (None or any Instant),
-//   BLPop/BRPop, the `now` of the timeout scan and the unregistered id are symbolic.
+//   Symbolic: connection ids (pop/register: three pairwise distinct full-width u64; unregister/
+//   timeout scan: symbolic base + concrete offsets, so that id comparisons fold -- with free ids
+//   `retain`/removal patterns become symbolic and symex does not finish), BLPop/BRPop, deadlines
+//   (free for pop/register/unregister; for the timeout scan the expiry PATTERN is concrete per
+//   instance: no deadline / already passed / == now / not yet, and one-client harnesses cover
+//   a full-width symbolic deadline and `now`).
 //   The registry is built directly through the std container API (no ferrous function involved)
 //   so that it satisfies the invariants: queue(k) = the clients registered under k in
 //   registration order; a key is in the map and in `blocked_keys` iff its queue is non-empty.
@@ -54,6 +58,15 @@ fn any_pre(ks: [u8; NC]) -> Pre {
         }
         i += 1;
     }
+    p
+}
+
+/// like any_pre, but ids = symbolic base + concrete offsets (0, 1, 2): comparisons between two
+/// ids are decided by the simplifier, so the removal pattern of an operation stays concrete
+fn any_pre_base(ks: [u8; NC]) -> Pre {
+    let mut p = any_pre(ks);
+    let base: u64 = kani::any();
+    p.ids = [base, base.wrapping_add(1), base.wrapping_add(2)];
     p
 }
 
@@ -363,48 +376,52 @@ fn pop_covers_rest(w: u32) {
 
 
 // ---------------------------------------------------------------- unregister_client
-fn unregister_case(ks: [u8; NC]) -> u32 {
-    let p = any_pre(ks);
+/// `k` < 3: unregister client k of the shape; k == 3: an id nobody registered
+fn unregister_case(ks: [u8; NC], k: usize) -> u32 {
+    if k < NC && ks[k] == 0 {
+        return 0;
+    }
+    let p = any_pre_base(ks);
     let mut reg = build(&p);
-    let id: u64 = kani::any();
+    let id: u64 = if k < NC { p.ids[k] } else { p.ids[0].wrapping_add(7) };
     reg.unregister_client(id);
     let mut gone = NONE_GONE;
-    let mut i = 0;
-    while i < NC {
-        if p.ks[i] != 0 && p.ids[i] == id {
-            gone[i] = true;
-        }
-        i += 1;
+    if k < NC {
+        gone[k] = true;
     }
     check_all(&reg, &p, &gone, None, None);
     std::mem::forget(reg);
-    (gone[1] && ks[0] == 3 && ks[1] == 3) as u32
-        | ((!gone[0] && !gone[1] && !gone[2] && ks[0] != 0) as u32) << 1
-        | ((gone[0] && ks[1] == 0) as u32) << 2
+    (k == 1 && ks[0] == 3 && ks[1] == 3) as u32 | ((k == 3 && ks[0] != 0) as u32) << 1 | ((k == 0 && ks[1] == 0) as u32) << 2
 }
 
 // ---------------------------------------------------------------- get_expired_clients
+/// Concrete expiry pattern per client: 0 = no deadline (BLPOP .. 0), 1 = deadline passed
+/// (earlier second, larger nanosecond part), 2 = deadline == now, 3 = not yet (later second,
+/// smaller nanosecond part).  `now` = (T0_S, 500 ns).
 /// `region`: predicate of the duplicate-report defect = a client whose deadline has passed waits
-/// on both keys.  The region depends on symbolic deadlines, so it guards the instance (an
-/// `assume` would cut the instances that follow in the same harness).
-fn expired_case(ks: [u8; NC], region: bool) -> u32 {
-    if region && ks[0] != 3 && ks[1] != 3 && ks[2] != 3 {
-        return 0;
-    }
-    let p = any_pre(ks);
-    let now_s: i64 = kani::any();
-    let now_ns: u32 = kani::any();
-    kani::assume(now_ns < 1_000_000_000);
-    // model: client i is expired iff it has a deadline and deadline <= now
+/// on both keys; instances outside the requested region are skipped.
+fn expired_case(ks: [u8; NC], pat: [u8; NC], region: bool) -> u32 {
+    let mut p = any_pre_base(ks);
     let mut gone = NONE_GONE;
     let mut n_exp = 0;
     let mut multi_expired = false;
     let mut i = 0;
     while i < NC {
-        if p.ks[i] != 0 && p.has_dl[i] && (p.dl_s[i] < now_s || (p.dl_s[i] == now_s && p.dl_ns[i] <= now_ns)) {
+        p.has_dl[i] = pat[i] != 0;
+        if pat[i] == 1 {
+            p.dl_s[i] = T0_S - 1;
+            p.dl_ns[i] = 999_999_999;
+        } else if pat[i] == 2 {
+            p.dl_s[i] = T0_S;
+            p.dl_ns[i] = 500;
+        } else {
+            p.dl_s[i] = T0_S + 1;
+            p.dl_ns[i] = 0;
+        }
+        if ks[i] != 0 && (pat[i] == 1 || pat[i] == 2) {
             gone[i] = true;
             n_exp += 1;
-            if p.ks[i] == 3 {
+            if ks[i] == 3 {
                 multi_expired = true;
             }
         }
@@ -414,8 +431,18 @@ fn expired_case(ks: [u8; NC], region: bool) -> u32 {
         return 0;
     }
     let mut reg = build(&p);
-    let got = reg.get_expired_clients(mk_instant(now_s, now_ns));
-    // (d) exactly the expired clients, each once
+    let got = reg.get_expired_clients(mk_instant(T0_S, 500));
+    check_expired_report(&p, &gone, &got, n_exp, region);
+    // (a)(b)(c) on the state left behind
+    check_all(&reg, &p, &gone, None, None);
+    std::mem::forget(got);
+    std::mem::forget(reg);
+    region as u32 | ((n_exp >= 2) as u32) << 1 | ((n_exp == 0 && ks[0] != 0 && pat[0] == 3) as u32) << 2 | ((n_exp == 1 && gone[1] && ks[0] == 1 && ks[1] == 1) as u32) << 3 | ((gone[0] && pat[0] == 2) as u32) << 4
+}
+
+/// (d) the report is exactly the set of expired clients, each once
+fn check_expired_report(p: &Pre, gone: &[bool; NC], got: &Vec<u64>, n_exp: usize, region: bool) {
+    assert!(got.len() <= 2 * NC, "(d) more reports than registrations");
     let mut i = 0;
     while i < NC {
         if p.ks[i] != 0 {
@@ -438,7 +465,6 @@ fn expired_case(ks: [u8; NC], region: bool) -> u32 {
         }
         i += 1;
     }
-    assert!(got.len() <= 2 * NC, "(d) more reports than registrations");
     let mut j = 0;
     while j < 2 * NC {
         if j < got.len() {
@@ -451,15 +477,32 @@ fn expired_case(ks: [u8; NC], region: bool) -> u32 {
     if !region {
         assert!(got.len() == n_exp, "(d) number of reports == number of expired clients");
     }
-    // (a)(b)(c) on the state left behind
-    check_all(&reg, &p, &gone, None, None);
-    std::mem::forget(got);
-    std::mem::forget(reg);
-    region as u32
-        | ((n_exp >= 2) as u32) << 1
-        | ((n_exp == 0 && ks[0] != 0 && p.has_dl[0]) as u32) << 2
-        | ((n_exp == 1 && gone[1] && ks[0] == 1 && ks[1] == 1) as u32) << 3
-        | ((gone[0] && p.dl_s[0] == now_s && p.dl_ns[0] == now_ns) as u32) << 4
+}
+
+/// One registered client, deadline and `now` full-width symbolic: reported iff deadline <= now.
+/// `both_keys` = the client waits on both keys (region of the duplicate-report defect when it expires).
+fn expired_clock_case(both_keys: bool, region: bool) -> u32 {
+    let ks = [if both_keys { 3 } else { 1 }, 0, 0];
+    let p = any_pre(ks);
+    let now_s: i64 = kani::any();
+    let now_ns: u32 = kani::any();
+    kani::assume(now_ns < 1_000_000_000);
+    let expired = p.has_dl[0] && (p.dl_s[0] < now_s || (p.dl_s[0] == now_s && p.dl_ns[0] <= now_ns));
+    let mut w = 0;
+    if (expired && both_keys) == region {
+        let mut reg = build(&p);
+        let got = reg.get_expired_clients(mk_instant(now_s, now_ns));
+        let mut gone = NONE_GONE;
+        gone[0] = expired;
+        check_expired_report(&p, &gone, &got, expired as usize, region);
+        check_all(&reg, &p, &gone, None, None);
+        w = (expired as u32) | ((!expired && p.has_dl[0]) as u32) << 1 | ((!p.has_dl[0]) as u32) << 2
+            | ((expired && p.dl_s[0] == now_s && p.dl_ns[0] == now_ns) as u32) << 3
+            | ((!expired && p.has_dl[0] && p.dl_s[0] == now_s) as u32) << 4;
+        std::mem::forget(got);
+        std::mem::forget(reg);
+    }
+    w
 }
 fn expired_covers_kf(w: u32) {
     kani::cover!(w & 1 != 0, "an expired client waits on two keys");
@@ -474,13 +517,7 @@ fn expired_covers_rest(w: u32) {
 
 
 // =================================================================== harnesses
-// ---- quick tier: every shape with <= 2 clients (13) + 4 selected shapes with 3 clients
-#[kani::proof]
-#[kani::unwind(6)]
-fn c13_prestate_wf() {
-    shapes_le2!(prestate_case);
-    kani::cover!(true, "all shapes built and checked");
-}
+// ---- quick tier
 #[kani::proof]
 #[kani::unwind(6)]
 fn c13_register_key_a() {
@@ -508,9 +545,7 @@ fn c13_register_other_orders() {
 #[kani::proof]
 #[kani::unwind(6)]
 fn c13_register_dupkey_kf() {
-    let mut w = 0u32;
-    w |= register_case([0, 0, 0], 1, 1);
-    w |= register_case([1, 0, 0], 1, 1);
+    let w = register_case([0, 0, 0], 1, 1);
     kani::cover!(w & 2 != 0, "registration into an empty registry");
 }
 #[kani::proof]
@@ -541,55 +576,87 @@ fn c13_pop_multikey_kf() {
     shapes_3sel!(|ks| w |= pop_case(ks, 0, true) | pop_case(ks, 1, true));
     pop_covers_kf(w);
 }
+/// every shape with <= 2 clients, unregister the first client / an unknown id
 #[kani::proof]
 #[kani::unwind(6)]
-fn c13_unregister_quick() {
+fn c13_unregister_first() {
     let mut w = 0u32;
-    shapes_le2!(|ks| w |= unregister_case(ks));
-    shapes_3sel!(|ks| w |= unregister_case(ks));
-    kani::cover!(w & 1 != 0, "unregistered the second client of both queues");
+    shapes_le2!(|ks| w |= unregister_case(ks, 0));
+    w |= unregister_case([0, 0, 0], 3);
+    w |= unregister_case([3, 1, 0], 3);
     kani::cover!(w & 2 != 0, "unknown connection id");
     kani::cover!(w & 4 != 0, "last client removed, registry becomes empty");
 }
+/// every shape with 2 clients, unregister the second client
+#[kani::proof]
+#[kani::unwind(6)]
+fn c13_unregister_second() {
+    let mut w = 0u32;
+    shapes_le2!(|ks| w |= unregister_case(ks, 1));
+    kani::cover!(w & 1 != 0, "unregistered the second client of both queues");
+}
+/// timeout scan, one client: every expiry pattern; deadline and now full-width symbolic
 #[kani::proof]
 #[kani::unwind(8)]
-fn c13_expired_rest_quick() {
+fn c13_expired_one_client() {
     let mut w = 0u32;
-    shapes_le2!(|ks| w |= expired_case(ks, false));
-    shapes_3sel!(|ks| w |= expired_case(ks, false));
-    expired_covers_rest(w);
+    w |= expired_case([1, 0, 0], [0, 0, 0], false) | expired_case([1, 0, 0], [1, 0, 0], false) | expired_case([1, 0, 0], [2, 0, 0], false) | expired_case([1, 0, 0], [3, 0, 0], false);
+    w |= expired_case([2, 0, 0], [1, 0, 0], false) | expired_case([3, 0, 0], [0, 0, 0], false) | expired_case([3, 0, 0], [3, 0, 0], false);
+    w |= expired_case([0, 0, 0], [0, 0, 0], false);
+    kani::cover!(w & 4 != 0, "nobody expires although deadlines exist");
+    kani::cover!(w & 16 != 0, "deadline == now counts as expired");
+}
+#[kani::proof]
+#[kani::unwind(8)]
+fn c13_expired_clock_sym() {
+    let w = expired_clock_case(false, false);
+    kani::cover!(w & 1 != 0, "deadline passed");
+    kani::cover!(w & 2 != 0, "deadline in the future");
+    kani::cover!(w & 4 != 0, "no deadline");
+    kani::cover!(w & 8 != 0, "deadline == now");
+    kani::cover!(w & 16 != 0, "same second, later nanosecond");
+}
+/// timeout scan, two clients
+#[kani::proof]
+#[kani::unwind(8)]
+fn c13_expired_two_same_key() {
+    let mut w = 0u32;
+    w |= expired_case([1, 1, 0], [1, 0, 0], false) | expired_case([1, 1, 0], [0, 2, 0], false) | expired_case([1, 1, 0], [2, 1, 0], false);
+    w |= expired_case([1, 1, 0], [3, 3, 0], false) | expired_case([1, 1, 0], [3, 1, 0], false) | expired_case([2, 2, 0], [1, 3, 0], false);
+    kani::cover!(w & 2 != 0, "two clients expire at once");
+    kani::cover!(w & 8 != 0, "a client behind the head of a queue expires alone");
+}
+#[kani::proof]
+#[kani::unwind(8)]
+fn c13_expired_two_mixed() {
+    let mut w = 0u32;
+    w |= expired_case([1, 2, 0], [1, 0, 0], false) | expired_case([1, 2, 0], [2, 1, 0], false) | expired_case([2, 1, 0], [3, 2, 0], false);
+    w |= expired_case([3, 1, 0], [0, 1, 0], false) | expired_case([3, 1, 0], [3, 2, 0], false) | expired_case([1, 3, 0], [2, 0, 0], false) | expired_case([3, 3, 0], [3, 0, 0], false);
+    kani::cover!(w & 2 != 0, "two clients expire at once");
 }
 #[kani::proof]
 #[kani::unwind(8)]
 fn c13_expired_multikey_kf() {
     let mut w = 0u32;
-    shapes_le2!(|ks| w |= expired_case(ks, true));
-    shapes_3sel!(|ks| w |= expired_case(ks, true));
+    w |= expired_case([3, 0, 0], [1, 0, 0], true) | expired_case([3, 1, 0], [2, 0, 0], true) | expired_case([1, 3, 0], [0, 1, 0], true) | expired_case([3, 3, 0], [1, 2, 0], true);
+    w |= expired_clock_case(true, true);
     expired_covers_kf(w);
 }
 
-// ---- thorough tier: all 27 shapes with exactly 3 clients, split by the first client's key set
+// ---- thorough tier
+#[kani::proof]
+#[kani::unwind(6)]
+fn c13_prestate_wf() {
+    shapes_le2!(prestate_case);
+    shapes_3sel!(prestate_case);
+    kani::cover!(true, "all shapes built and checked");
+}
 #[kani::proof]
 #[kani::unwind(6)]
 fn c13_pop_rest_n3_f1() {
     let mut w = 0u32;
     shapes_3!(1, |ks| w |= pop_case(ks, 0, false) | pop_case(ks, 1, false));
     kani::cover!(w & (2 | 4 | 8) != 0, "a pop outside the defect region was checked");
-}
-#[kani::proof]
-#[kani::unwind(6)]
-fn c13_unregister_n3_f1() {
-    let mut w = 0u32;
-    shapes_3!(1, |ks| w |= unregister_case(ks));
-    kani::cover!(w & 2 != 0, "unknown connection id");
-}
-#[kani::proof]
-#[kani::unwind(8)]
-fn c13_expired_rest_n3_f1() {
-    let mut w = 0u32;
-    shapes_3!(1, |ks| w |= expired_case(ks, false));
-    kani::cover!(w & 2 != 0, "two clients expire at once");
-    kani::cover!(w & 4 != 0, "nobody expires although deadlines exist");
 }
 #[kani::proof]
 #[kani::unwind(6)]
@@ -600,47 +667,31 @@ fn c13_pop_rest_n3_f2() {
 }
 #[kani::proof]
 #[kani::unwind(6)]
-fn c13_unregister_n3_f2() {
-    let mut w = 0u32;
-    shapes_3!(2, |ks| w |= unregister_case(ks));
-    kani::cover!(w & 2 != 0, "unknown connection id");
-}
-#[kani::proof]
-#[kani::unwind(8)]
-fn c13_expired_rest_n3_f2() {
-    let mut w = 0u32;
-    shapes_3!(2, |ks| w |= expired_case(ks, false));
-    kani::cover!(w & 2 != 0, "two clients expire at once");
-    kani::cover!(w & 4 != 0, "nobody expires although deadlines exist");
-}
-#[kani::proof]
-#[kani::unwind(6)]
-fn c13_unregister_n3_f3() {
-    let mut w = 0u32;
-    shapes_3!(3, |ks| w |= unregister_case(ks));
-    kani::cover!(w & 2 != 0, "unknown connection id");
-}
-#[kani::proof]
-#[kani::unwind(8)]
-fn c13_expired_rest_n3_f3() {
-    let mut w = 0u32;
-    shapes_3!(3, |ks| w |= expired_case(ks, false));
-    kani::cover!(w & 2 != 0, "two clients expire at once");
-    kani::cover!(w & 4 != 0, "nobody expires although deadlines exist");
-}
-#[kani::proof]
-#[kani::unwind(6)]
 fn c13_pop_multikey_n3_kf() {
     let mut w = 0u32;
-    shapes_3!(1, |ks| w |= pop_case(ks, 0, true) | pop_case(ks, 1, true));
     shapes_3!(3, |ks| w |= pop_case(ks, 0, true) | pop_case(ks, 1, true));
+    shapes_3!(1, |ks| w |= pop_case(ks, 0, true) | pop_case(ks, 1, true));
     pop_covers_kf(w);
+}
+#[kani::proof]
+#[kani::unwind(6)]
+fn c13_unregister_n3_sel() {
+    let mut w = 0u32;
+    shapes_3sel!(|ks| w |= unregister_case(ks, 0) | unregister_case(ks, 1) | unregister_case(ks, 2));
+    kani::cover!(w & 1 != 0, "unregistered the second client of both queues");
+}
+#[kani::proof]
+#[kani::unwind(8)]
+fn c13_expired_rest_n3_sel() {
+    let mut w = 0u32;
+    w |= expired_case([1, 1, 1], [1, 2, 1], false) | expired_case([1, 1, 1], [0, 1, 3], false) | expired_case([1, 1, 1], [3, 2, 0], false);
+    w |= expired_case([1, 3, 2], [1, 0, 3], false) | expired_case([1, 3, 2], [2, 3, 1], false) | expired_case([2, 1, 3], [0, 2, 0], false);
+    kani::cover!(w & 2 != 0, "two clients expire at once");
 }
 #[kani::proof]
 #[kani::unwind(8)]
 fn c13_expired_multikey_n3_kf() {
     let mut w = 0u32;
-    shapes_3!(1, |ks| w |= expired_case(ks, true));
-    shapes_3!(3, |ks| w |= expired_case(ks, true));
+    w |= expired_case([3, 3, 3], [1, 1, 1], true) | expired_case([1, 3, 2], [0, 2, 0], true);
     expired_covers_kf(w);
 }
